@@ -1,6 +1,6 @@
 # C20 — policy-driven issuance is bounded: ecosystem mint cap and AMM reward allocations
 LEAN_MODULES = ["Sif.Props.C20"]
-EXTRACT = [{"group": "disp", "passes": ["dispconsts", "mintcallers", "disphooks", "accureset", "blockshare"]}]
+EXTRACT = [{"group": "disp", "passes": ["dispconsts", "mintcallers", "disphooks", "accureset", "blockshare", "migrations"]}]
 FAMILIES = [
     {"name": "mint", "family": "mint", "group": "disp", "driver": "drv_issue", "n_quick": 6000, "n_thorough": 60000, "seeds_thorough": 3},
     {"name": "dispmsgs", "family": "disp", "group": "disp", "driver": "drv_disp", "n_quick": 600, "n_thorough": 6000, "seeds_thorough": 2},
@@ -26,12 +26,16 @@ RULE = ("mint: real dispensation BeginBlocker on the real keeper/bank, block his
         "extreme period shapes (tag ...extreme; a third of the rwedits chains and two directed ones): lengths 2^61..2^64-1 (end = MaxInt64, MaxUint64, "
         "start+4e18-1, start+2^61, random 62-64 bit; start 0, 1, at / right after the current height), allocation = k*length + {-4..+4} (k = 1, small, "
         "random, maximal) or near 2^128-1, one pool of multiplier 1 so that the per-block bound floor(allocation/length)*mod is tight, first 6 blocks. "
+        "software upgrades in the restart family: scenarios none / one upgrade of a chain whose stored module version map is the released one (dispensation 2, clp 5) / "
+        "an upgrade with no version change / two upgrades; the plan is scheduled with UpgradeKeeper.ScheduleUpgrade two blocks ahead, at the upgrade height the app is "
+        "re-opened from its DB as the new release (version.Version = plan name, so the app's own SetupHandlers registers the RunMigrations handler) and the x/upgrade "
+        "BeginBlocker applies it; judged: per-block mint step across the upgrade block (tag app.upgrade.mint-state-preserved) and counter = initial + created <= cap after every block. "
         "non-trivial = a block that created coins / an accepted message")
 TRUSTED_BASE = [
     "Lean 4.33.0 kernel; axioms propext, Classical.choice, Quot.sound (audited per theorem on every run)",
     "hand-written Lean models of x/dispensation BeginBlocker + mint controller and of the reward part of x/clp EndBlocker, tied by differential execution against the real keepers / the real app",
     "the pool split of a block's reward distribution (calcPoolDistribution, sdk.Dec; property C18) is an environment value of the model; only the running clamp of CollectPoolRewardTuples and mint/transfer/burn-remainder are modelled",
-    "the fact translator passes dispconsts, mintcallers (syntactic go/ast: calls recognised by selector name), disphooks",
+    "the fact translator passes dispconsts, mintcallers (syntactic go/ast: calls recognised by selector name), disphooks, accureset, blockshare, migrations (callee closure by function name, 4 levels, within the module's own packages)",
     "Go harness + line protocol + driver parser",
     "cosmos-sdk x/bank (modelled: mint, send, burn, blocked recipients), module.Manager (runs BeginBlock once per entry of SetOrderBeginBlockers), baseapp/IAVL persistence (exercised by the restart family)",
 ]
